@@ -53,6 +53,28 @@ def make_targets(lab):
             return rid
 
         def gen(self, n):
+            # any iterator may be a streamed result: a generator, the iterator of a list, an endless counter, an object of the
+            # application that has nothing but __iter__ and __next__
+            lab.gen_kind = k = getattr(lab, "gen_kind", -1) + 1
+            if k % 4 == 1:
+                return iter(list(range(n)))
+            if k % 4 == 2:
+                import itertools
+                return itertools.count(0)
+            if k % 4 == 3:
+                class Items(object):
+                    def __init__(self):
+                        self.i = 0
+
+                    def __iter__(self):
+                        return self
+
+                    def __next__(self):
+                        self.i += 1
+                        if self.i > n:
+                            raise StopIteration
+                        return self.i
+                return Items()
             return (i for i in range(n))
 
         @P.oneway
